@@ -311,3 +311,253 @@ Qed.
 
 End StepsStd.
 Arguments parse_format : simpl never.
+
+(* ---- the whole block, DATATYPE=STANDARD ---- *)
+
+Arguments is_eol !t.
+Arguments all_digits : simpl never.
+Arguments parse_nat : simpl never.
+Arguments block_loop : simpl never.
+Arguments parse_matrix : simpl never.
+Arguments parse_dimensions : simpl never.
+Arguments render_nat : simpl never.
+Arguments matrix_loop : simpl never.
+Arguments row_tokens : simpl never.
+Arguments seq_tokens : simpl never.
+Arguments built_alphabet : simpl never.
+
+Section BlockStd.
+Variable lower : text -> text.
+
+Lemma parse_matrix_standard : forall fuel ns nt nchar T mt il cs ti lk R,
+  nt <> 0 -> nchar <> 0 ->
+  nongap T <> [] -> NoDup T -> (forall c, In c T -> caseless_char c /\ c <> 63) ->
+  parse_matrix lower fuel (mkNX ns (Some nt) (Some nchar) DtStandard T t_dash t_qm mt il false cs ti lk) R
+  = do x <- matrix_loop lower fuel (mkNX ns (Some nt) (Some nchar) DtStandard T t_dash t_qm mt il false cs ti lk)
+                        (built_alphabet T) nchar [] None R ;;
+    let '(st', a', rows, rest) := x in
+    Ok (st', mkBR DtStandard a' (map (fun r => (nth (fst r) (x_ns st') [], snd r)) rows) (x_ns st')
+                  (x_title st') (x_link st'), rest).
+Proof.
+  intros. unfold parse_matrix. cbn [x_ntax x_nchar x_dtype x_symbols x_gap x_missing nonzero].
+  apply Z.eqb_neq in H. apply Z.eqb_neq in H0. rewrite H, H0.
+  rewrite build_alphabet_ok by assumption. reflexivity.
+Qed.
+
+(* a cell of a is re-read in the built alphabet as a state with the same symbol *)
+Lemma reread_symbols : forall a T s,
+  NoDup T -> (forall x, In x T -> x <> 63) ->
+  (forall i, In i s -> exists ch, state_str a i = [ch] /\ plain_symbol_char ch = true /\ (In ch T \/ ch = 45 \/ ch = 63)) ->
+  symtext (built_alphabet T) (symbols_as_string a s)
+  /\ map (state_str (built_alphabet T)) (st_of (built_alphabet T) (symbols_as_string a s)) = map (state_str a) s
+  /\ length (symbols_as_string a s) = length s.
+Proof.
+  intros a T s Nd H63. unfold symbols_as_string. induction s as [|i s IH]; intro H.
+  - simpl. split; [intros c []|]. split; reflexivity.
+  - destruct (H i (or_introl eq_refl)) as [ch [E [P Hc]]].
+    destruct (IH (fun j Hj => H j (or_intror Hj))) as [A [B C0]].
+    destruct (built_lookup T ch Nd H63 Hc) as [j [L S]].
+    cbn [map concat]. rewrite E. cbn [app]. split; [|split].
+    + intros c [Hc'|Hc']; [subst; split; [exact P | exists j; exact L] | apply A; exact Hc'].
+    + unfold st_of in *. cbn [map]. rewrite L. rewrite S. f_equal. exact B.
+    + cbn [length]. f_equal. exact C0.
+Qed.
+
+Lemma in_concat_singles : forall (l : list text) c, (forall t, In t l -> exists d, t = [d]) ->
+  (In c (concat l) <-> In [c] l).
+Proof.
+  induction l as [|t l IH]; intros c H; simpl; [tauto|].
+  destruct (H t (or_introl eq_refl)) as [d E]. subst t. simpl. rewrite IH by (intros t Ht; apply H; right; exact Ht).
+  split; intros [A|A]; auto; left; congruence.
+Qed.
+
+Lemma concat_singles_nodup : forall (l : list text), (forall t, In t l -> exists d, t = [d]) -> NoDup l -> NoDup (concat l).
+Proof.
+  induction l as [|t l IH]; intros H N; simpl; [constructor|].
+  destruct (H t (or_introl eq_refl)) as [d E]. subst t. inversion N; subst. simpl. constructor.
+  - intro X. apply H2. apply (in_concat_singles l d); [intros t Ht; apply H; right; exact Ht | exact X].
+  - apply IH; [intros t Ht; apply H; right; exact Ht | assumption].
+Qed.
+
+Theorem nexus_standard_roundtrip_l : forall (dt : dtype) (a : alphabet) (sym_order : list text)
+    (simple cs : bool) (m : matrix) (nchar : Z),
+  std_dtype dt = true -> std_alphabet_ok a = true ->
+  same_set sym_order (fundamental_symbols [a]) = true -> texts_distinct sym_order = true ->
+  m <> [] -> 1 <= nchar ->
+  forallb label_token_ok (map fst m) = true ->
+  NoDup (map (keyf lower cs) (map fst m)) ->
+  forallb (fun r => forallb (valid_cell a) (snd r)) m = true ->
+  rectangular nchar m = true ->
+  exists toks st' b rows',
+    write_chars_block dt [a] sym_order (mkNW simple None None) m = Ok toks
+    /\ read_chars_block lower
+         (if simple then nx_init [] None cs else nx_init (map fst m) (Some (len m)) cs) toks
+       = Ok (st', [mkBR DtStandard b rows' (map fst m) None None], [EOL; EOL; EOL])
+    /\ map fst rows' = map fst m
+    /\ map (fun r => map (state_str b) (snd r)) rows' = map (fun r => map (state_str a) (snd r)) m.
+Proof.
+  intros dt a sym_order simple cs m nchar Hdt Ha Hss Hsd Hm Hn Hl Hnd Hv Hr.
+  unfold std_alphabet_ok in Ha.
+  repeat (apply andb_true_iff in Ha; destruct Ha as [Ha ?]).
+  rename Ha into Hkinds, H into Hamb, H0 into Hcells, H1 into Hfd, H2 into Hng, H3 into Hfund.
+  set (F := fundamental_symbols [a]) in *.
+  set (T := concat sym_order).
+  (* facts about sym_order and T *)
+  assert (SO : forall t, In t sym_order -> In t F).
+  { unfold same_set in Hss. apply andb_true_iff in Hss. destruct Hss as [A _]. rewrite forallb_forall in A.
+    intros t Ht. apply text_mem_In. apply A. exact Ht. }
+  assert (FS : forall t, In t F -> In t sym_order).
+  { unfold same_set in Hss. apply andb_true_iff in Hss. destruct Hss as [_ A]. rewrite forallb_forall in A.
+    intros t Ht. apply text_mem_In. apply A. exact Ht. }
+  assert (Ffacts : forall t, In t F -> exists c, t = [c] /\ ascii_upper c = c /\ ascii_lower c = c /\ c <> 63 /\ plain_symbol_char c = true).
+  { rewrite forallb_forall in Hfund. intros t Ht. specialize (Hfund t Ht).
+    destruct t as [|c [|? ?]]; try discriminate. exists c.
+    repeat (apply andb_true_iff in Hfund; destruct Hfund as [Hfund ?]).
+    apply Z.eqb_eq in Hfund. apply Z.eqb_eq in H1. apply negb_true_iff in H0. apply Z.eqb_neq in H0. tauto. }
+  assert (Singles : forall t, In t sym_order -> exists d, t = [d]).
+  { intros t Ht. destruct (Ffacts t (SO t Ht)) as [c [E _]]. exists c. exact E. }
+  assert (Tin : forall c, In c T <-> In [c] sym_order) by (intro c; apply in_concat_singles; exact Singles).
+  assert (Tfacts : forall c, In c T -> caseless_char c /\ c <> 63).
+  { intros c Hc. apply Tin in Hc. destruct (Ffacts [c] (SO _ Hc)) as [c' [E [U [L [N6 _]]]]]. inversion E; subst. split; [split|]; assumption. }
+  assert (Tplain : forall c, In c T -> plain_symbol_char c = true).
+  { intros c Hc. apply Tin in Hc. destruct (Ffacts [c] (SO _ Hc)) as [c' [E [_ [_ [_ P]]]]]. inversion E; subst. exact P. }
+  assert (Tnd : NoDup T) by (apply concat_singles_nodup; [exact Singles | apply texts_distinct_NoDup; exact Hsd]).
+  assert (T63 : forall x, In x T -> x <> 63) by (intros x Hx; apply Tfacts; exact Hx).
+  assert (Tng : nongap T <> []).
+  { apply existsb_exists in Hng. destruct Hng as [t [Ht Nt]]. apply negb_true_iff in Nt. apply text_eqb_neq in Nt.
+    destruct (Ffacts t Ht) as [c [E _]]. subst t.
+    assert (In c (nongap T)).
+    { unfold nongap. apply filter_In. split; [apply Tin; apply FS; exact Ht|].
+      apply negb_true_iff. apply Z.eqb_neq. intro X. subst. apply Nt. reflexivity. }
+    intro X. rewrite X in H. destruct H. }
+  assert (Tne : T <> []) by (intro X; apply Tng; unfold nongap; rewrite X; reflexivity).
+  assert (Tsym : symtext (built_alphabet T) T).
+  { intros c Hc. split; [apply Tplain; exact Hc|].
+    destruct (built_lookup T c Tnd T63 (or_introl Hc)) as [j [L _]]. exists j. exact L. }
+  assert (Ttok : seq_tokens T = [T]) by (apply (seq_tokens_plain (built_alphabet T)); assumption).
+  assert (Teol : is_eol T = false) by (apply (plain_token_tests (built_alphabet T) T); split; assumption).
+  assert (Tuc : ucase T = T).
+  { unfold ucase. rewrite <- (map_id T) at 2. apply map_ext_in. intros c Hc. apply Tfacts. exact Hc. }
+  assert (Tdq : text_eqb T t_dq = false).
+  { apply text_eqb_neq. intro X. assert (In 34 T) by (rewrite X; left; reflexivity).
+    apply Tplain in H. apply (plain_not 34 34 H); [simpl; tauto | reflexivity]. }
+  (* the cells *)
+  assert (Cells : forall r, In r m -> forall i, In i (snd r) ->
+            exists ch, state_str a i = [ch] /\ plain_symbol_char ch = true /\ (In ch T \/ ch = 45 \/ ch = 63)).
+  { intros r Hin i Hi. rewrite forallb_forall in Hv. specialize (Hv r Hin). rewrite forallb_forall in Hv.
+    specialize (Hv i Hi). unfold valid_cell in Hv. apply existsb_exists in Hv. destruct Hv as [s [Hs E]].
+    apply Z.eqb_eq in E. subst i.
+    unfold alphabet_cells_ok in Hcells. rewrite forallb_forall in Hcells. specialize (Hcells s Hs).
+    destruct (cell_ok_inv a (s_index s) Hcells) as [ch [Es [P L]]]. exists ch. split; [exact Es|]. split; [exact P|].
+    (* the state found at this index: fundamental or "?" *)
+    unfold cell_ok in Hcells. unfold state_str in Es.
+    destruct (find_state (s_index s) (a_states a)) as [s0|] eqn:Ef; [|discriminate].
+    assert (In0 : In s0 (a_states a)).
+    { clear - Ef. induction (a_states a) as [|z l IH]; simpl in Ef; [discriminate|].
+      destruct (s_index s =? s_index z); [inversion Ef; subst; left; reflexivity | right; apply IH; exact Ef]. }
+    destruct (s_symbol s0) as [|c0 [|? ?]] eqn:Es0; try discriminate. inversion Es; subst c0.
+    rewrite forallb_forall in Hkinds. specialize (Hkinds s0 In0). apply orb_true_iff in Hkinds.
+    destruct Hkinds as [K|K].
+    - left. apply Tin. apply FS. unfold F, fundamental_symbols. simpl. rewrite List.app_nil_r.
+      rewrite <- Es0. apply in_map. apply filter_In. split; assumption.
+    - right. right. rewrite Es0 in K. apply text_eqb_eq in K. inversion K. reflexivity. }
+  assert (Hrows : forall r, In r m -> nrow_ok2 a (built_alphabet T) nchar r).
+  { intros r Hin. destruct (reread_symbols a T (snd r) Tnd T63 (Cells r Hin)) as [A [_ C0]].
+    split; [|split].
+    - rewrite forallb_forall in Hl. apply Hl. apply in_map. exact Hin.
+    - exact A.
+    - unfold rectangular in Hr. rewrite forallb_forall in Hr. specialize (Hr r Hin). apply Z.eqb_eq in Hr.
+      unfold len in *. rewrite C0. exact Hr. }
+  assert (Esites : zmax_list (map (fun r : text * list Z => len (snd r)) m) = Some nchar).
+  { apply zmax_list_const; [destruct m; [contradiction | discriminate]|].
+    intros x Hx. apply in_map_iff in Hx. destruct Hx as [r [E Hin]]. subst x.
+    unfold rectangular in Hr. rewrite forallb_forall in Hr. apply Z.eqb_eq. apply (Hr r Hin). }
+  assert (Lm : 1 <= len m) by (destruct m; [contradiction | unfold len; simpl; lia]).
+  (* the writer *)
+  assert (Efmt : exists amb, (amb = [] \/ amb = [kw_MISSING; t_eq; t_qm]) /\
+            format_tokens dt [a] sym_order
+            = Ok (kw_DATATYPE :: t_eq :: kw_STANDARD :: kw_SYMBOLS :: t_eq :: t_dq :: T :: t_dq :: amb)).
+  { destruct (amb_terms_all [a]) as [amb| |] eqn:Ea; try discriminate.
+    exists amb. split.
+    - apply orb_true_iff in Hamb. destruct Hamb as [X|X]; apply (list_eqb_eq text_eqb text_eqb_eq) in X; auto.
+    - unfold format_tokens. fold F. rewrite Hss, Hsd. cbn [andb]. rewrite Ea. cbn [bind]. fold T. rewrite Ttok.
+      destruct dt; try discriminate; reflexivity. }
+  destruct Efmt as [amb [Hamb' Efmt]].
+  unfold write_chars_block. rewrite Esites. rewrite Efmt. cbn [bind nw_simple nw_title nw_link].
+  set (b := built_alphabet T) in *.
+  eexists. eexists. exists b. exists (map (reread a b) m).
+  split; [reflexivity|].
+  set (R := concat (map (row_tokens a) m) ++ [t_semi; EOL; kw_END; t_semi; EOL; EOL; EOL]).
+  assert (LR : (length m <= length R)%nat).
+  { unfold R. rewrite app_length. pose proof (rows_tokens_length a m). lia. }
+  assert (NL : map (fun r : nat * list Z => (nth (fst r) (map fst m) [], snd r)) (numbered (map (reread a b) m)) = map (reread a b) m).
+  { pose proof (numbered_labels (map (reread a b) m) []) as X. rewrite map_fst_reread in X. exact X. }
+  split; [|split].
+  2:{ apply map_fst_reread. }
+  2:{ rewrite map_map. apply map_ext_in. intros r Hin. unfold reread. cbn [snd].
+      destruct (reread_symbols a T (snd r) Tnd T63 (Cells r Hin)) as [_ [B _]]. exact B. }
+  cbv zeta.
+  destruct simple.
+  - cbn [app]. unfold read_chars_block. cbn [nx_init x_cap next_tok negb andb].
+    cbn.
+    rewrite block_loop_eq. cbn. norm_st.
+    rewrite pd_ntax_nchar with (n1 := len m) (n2 := nchar) by (try apply all_digits_render; apply parse_render_nat; lia).
+    cbn [bind].
+    rewrite block_loop_eq. cbn. norm_st.
+    rewrite (pf_standard _ _ _ _ _ _ _ _ _ _ _ T amb) by assumption.
+    cbn [bind].
+    rewrite block_loop_eq. cbn. norm_st.
+    rewrite parse_matrix_standard by (try assumption; lia).
+    rewrite matrix_loop_skip_eol by reflexivity.
+    unfold R. fold b.
+    match goal with |- context [matrix_loop lower ?fuel ?st _ _ _ _ _] =>
+      pose proof (matrix_loop_rows2 lower a b nchar true m [] st fuel None [EOL; kw_END; t_semi; EOL; EOL; EOL]) as ML
+    end.
+    change (numbered []) with (@nil (nat * list Z)) in ML. cbn [app] in ML.
+    rewrite ML; clear ML.
+    + cbn [bind]. norm_st.
+      rewrite block_loop_eq. cbn. rewrite NL. reflexivity.
+    + right; reflexivity.
+    + reflexivity.
+    + reflexivity.
+    + exact Hn.
+    + pose proof LR as LR'. unfold R in *. rewrite app_length. cbn [length]. lia.
+    + reflexivity.
+    + intros _. exists (len m). split; [reflexivity | unfold len; simpl; lia].
+    + exact Hrows.
+    + exact Hnd.
+  - cbn [app]. unfold read_chars_block. cbn [nx_init x_cap next_tok negb andb].
+    cbn.
+    rewrite block_loop_eq. cbn. norm_st.
+    rewrite pd_nchar with (n := nchar) by (try apply all_digits_render; apply parse_render_nat; lia).
+    cbn [bind].
+    rewrite block_loop_eq. cbn. norm_st.
+    rewrite (pf_standard _ _ _ _ _ _ _ _ _ _ _ T amb) by assumption.
+    cbn [bind].
+    rewrite block_loop_eq. cbn. norm_st.
+    rewrite parse_matrix_standard by (try assumption; lia).
+    rewrite matrix_loop_skip_eol by reflexivity.
+    unfold R. fold b.
+    match goal with |- context [matrix_loop lower ?fuel ?st _ _ _ _ _] =>
+      pose proof (matrix_loop_rows2 lower a b nchar false m [] st fuel None [EOL; kw_END; t_semi; EOL; EOL; EOL]) as ML
+    end.
+    change (numbered []) with (@nil (nat * list Z)) in ML. cbn [app] in ML.
+    rewrite ML; clear ML.
+    + cbn [bind]. norm_st.
+      rewrite block_loop_eq. cbn. rewrite NL. reflexivity.
+    + right; reflexivity.
+    + reflexivity.
+    + reflexivity.
+    + exact Hn.
+    + pose proof LR as LR'. unfold R in *. rewrite app_length. cbn [length]. lia.
+    + reflexivity.
+    + intro X. discriminate.
+    + exact Hrows.
+    + exact Hnd.
+Qed.
+
+End BlockStd.
+
+Lemma standard_alphabets_ok_l :
+  forallb std_alphabet_ok [alpha_standard; alpha_restriction; alpha_infinite] = true.
+Proof. vm_compute. reflexivity. Qed.
